@@ -126,6 +126,11 @@ class Report:
             "exhaustive": True,
             "known_findings_reported": [w for _, w in self.known_hits],
         }
+        from .build import vanished_anchors
+        gone = vanished_anchors(self.prop)
+        for g in gone:
+            self.broken_reasons.append(("anchors", "function %s, which the rules of this property name, no longer exists in the tree (renamed, merged into its caller or removed): "
+                                                   "the rules that rest on it cannot be evaluated" % g))
         cov.update(self.extra)
         ev = {"property_id": self.prop, "tier": self.tier, "seed": seed, "level": self.level, "coverage": cov,
               "assumptions": self.assumptions, "wall_s": round(wall, 3), "violations": len(self.violations)}
@@ -149,7 +154,9 @@ class Report:
         if self.broken_reasons:
             for rid, reason in self.broken_reasons:
                 print("ANALYSIS-BROKEN property=%s rule=%s reason=%s" % (self.prop, rid, reason))
-            if not self.violations:
+            if not self.violations or gone:
+                if gone and self.violations:
+                    print("  (%d rule instances failed as well; with a named function gone they are not reported as violations)" % len(self.violations))
                 return 2
         if self.violations:
             rd = os.path.join(os.environ.get("LHSA_EVIDENCE", os.path.join(VERIF, "evidence")), "replay")
